@@ -1,99 +1,138 @@
 (* C17 -- Custody: guarded funds leave only with the required approvals.
    Only statements, each closed by [exact] of a lemma of Proofs/Custody.v, with its assumptions.
    The model (Model/Custody.v) is the ante decorator's custody part followed by the sixteen custody
-   handlers and the two bank send paths, AS THE CODE IS; it is tied to /repo on every run by the
-   differential run of harness/cmd/c17 (model = real code step by step).  [H] is sha256+hex (nothing
-   assumed), [minrew] the network property MinCustodyReward. *)
+   handlers and the two bank send paths; it is parameterised by a [variant] (five repaired places, one
+   bit each; patches under /verif/fixes/C17-*.patch) and tied to /repo on every run by the differential
+   run of harness/cmd/c17 (model of the probed variant = real code, step by step).
+   [H] is sha256+hex (nothing assumed), [minrew] the network property MinCustodyReward. *)
 From Sekai Require Import Base.Prelude Model.Custody Model.C17Check Proofs.Custody.
 
-(* ---------------------------------------------------------------- clauses that hold *)
+(* ================================================================ clauses that hold on EVERY variant *)
 
 (* plain bank send is blocked while custodians exist -- in every state, hence after every history *)
 Theorem C17_bank_send_blocked_with_custodians :
-  forall H minrew s0 ops sg to amt st c,
-  let s := run H minrew s0 ops in
+  forall v H minrew s0 ops sg to amt now st c,
+  let s := run v H minrew s0 ops in
   a_set (getA s sg) = Some st -> s_en st = true -> a_cust (getA s sg) = Some c -> c <> [] ->
-  (exists e, step H minrew s (OBank sg to amt) = Err e) /\ exec H minrew s (OBank sg to amt) = s.
+  (exists e, step v H minrew s (OBank sg to amt now) = Err e) /\ exec v H minrew s (OBank sg to amt now) = s.
 Proof.
-  intros H minrew s0 ops sg to amt st c s Hs He Hc Hn. split.
-  - exact (bank_send_blocked H minrew s sg to amt st c Hs He Hc Hn).
-  - exact (bank_send_blocked_history H minrew s0 ops sg to amt st c Hs He Hc Hn).
+  intros v H minrew s0 ops sg to amt now st c s Hs He Hc Hn. split.
+  - exact (bank_send_blocked v H minrew s sg to amt now st c Hs He Hc Hn).
+  - exact (bank_send_blocked_history v H minrew s0 ops sg to amt now st c Hs He Hc Hn).
 Qed.
 Print Assumptions C17_bank_send_blocked_with_custodians.
 
 (* the whitelist restricts every plain bank send *)
 Theorem C17_whitelist_restricts_bank_send :
-  forall H minrew s0 ops sg to amt st w,
-  let s := run H minrew s0 ops in
+  forall v H minrew s0 ops sg to amt now st w,
+  let s := run v H minrew s0 ops in
   a_set (getA s sg) = Some st -> s_wl st = true -> a_wl (getA s sg) = Some w -> bool_at to w = false ->
-  exec H minrew s (OBank sg to amt) = s.
+  exec v H minrew s (OBank sg to amt now) = s.
 Proof. exact whitelist_restricts_history. Qed.
 Print Assumptions C17_whitelist_restricts_bank_send.
 
-(* what an ACCEPTED plain bank send implies: no custodians, destination whitelisted, limits not in use *)
+(* what an ACCEPTED plain bank send implies: no custodians, destination whitelisted, and with limits in
+   use the repaired limit path accepted every coin (on the unrepaired variant: never accepted) *)
 Theorem C17_bank_send_accepted_only_if :
-  forall H minrew s sg to amt s', step H minrew s (OBank sg to amt) = Ok s' ->
+  forall v H minrew s sg to amt now s', step v H minrew s (OBank sg to amt now) = Ok s' ->
   match a_set (getA s sg) with
   | None => True
   | Some st => (s_en st = true -> a_cust (getA s sg) = Some [])
                /\ (s_wl st = true -> forall w, a_wl (getA s sg) = Some w -> bool_at to w = true)
-               /\ s_lim st = false
+               /\ (s_lim st = true -> v_limits v = true /\ exists st',
+                      limits_fold (match a_lim (getA s sg) with Some l => l | None => [] end) now amt
+                                  (match a_stat (getA s sg) with Some x => x | None => [] end) = Ok st')
   end.
 Proof. exact bank_send_accepted. Qed.
 Print Assumptions C17_bank_send_accepted_only_if.
 
-(* each (voter, target, hash string) counts once, over every history: after an approval took effect,
-   no later approval or decline with the same three changes anything, whatever happened in between *)
+(* the limits restrict every plain bank send: what the limit path accepts has no coin above its limit *)
+Theorem C17_limits_restrict_bank_send :
+  forall lims now cs st st',
+  limits_fold lims now cs st = Ok st' ->
+  (forall d a tm, alist_get d st = Some (a, tm) -> 0 <= a) -> (forall c, In c cs -> 0 <= snd c) ->
+  existsb (over_limit lims) cs = false /\ (forall d a tm, alist_get d st' = Some (a, tm) -> 0 <= a).
+Proof. exact limits_fold_ok. Qed.
+Print Assumptions C17_limits_restrict_bank_send.
+
+(* the spec checker accepts every plain bank send the model accepts (clauses blocked / whitelist / limits) *)
+Theorem C17_chk_bank_sound :
+  forall v H minrew s sg to amt now s',
+  stat_inv s -> step v H minrew s (OBank sg to amt now) = Ok s' -> path_clauses (getA s sg) to amt "bank_send" = [].
+Proof. exact chk_bank_sound. Qed.
+Print Assumptions C17_chk_bank_sound.
+
+(* each (voter, target, vote key) counts once, over every history: after an approval took effect, no later
+   approval or decline with the same key changes anything, whatever happened in between.  The key is the
+   hash as written, or (variant with C17-vote-key-lowercase) the lower-cased hash: every spelling *)
 Theorem C17_vote_counts_once_per_address :
-  forall H minrew s f t h ops,
-  let s1 := exec H minrew s (OApprove f t h) in
-  s1 <> s ->
-  let s2 := run H minrew s1 ops in
-  exec H minrew s2 (OApprove f t h) = s2 /\ exec H minrew s2 (ODecline f t h) = s2.
+  forall v H minrew s f t h h' ops,
+  let s1 := exec v H minrew s (OApprove f t h) in
+  s1 <> s -> mark_key v h' = mark_key v h ->
+  let s2 := run v H minrew s1 ops in
+  exec v H minrew s2 (OApprove f t h') = s2 /\ exec v H minrew s2 (ODecline f t h') = s2.
 Proof. exact vote_counts_once. Qed.
 Print Assumptions C17_vote_counts_once_per_address.
 
 (* the vote store only grows: a mark is never removed or rewritten by any transaction *)
 Theorem C17_vote_marks_persist :
-  forall H minrew ops s f t h v,
-  mark_get f t h (marks s) = Some v -> mark_get f t h (marks (run H minrew s ops)) = Some v.
+  forall v H minrew ops s f t h x,
+  mark_get f t h (marks s) = Some x -> mark_get f t h (marks (run v H minrew s ops)) = Some x.
 Proof. exact marks_mono_run. Qed.
 Print Assumptions C17_vote_marks_persist.
 
-(* the spec checker accepts every plain bank send the model accepts (clauses blocked / whitelist / limits) *)
-Theorem C17_chk_bank_sound :
-  forall H minrew s sg to amt s',
-  step H minrew s (OBank sg to amt) = Ok s' -> path_clauses (getA s sg) to amt "bank_send" = [].
-Proof. exact chk_bank_sound. Qed.
-Print Assumptions C17_chk_bank_sound.
+(* coins never leave an account in a transaction in which it is not the payer (the target of an approval /
+   decline / confirmation, the signer of a send): the checker's outflow clause never fires *)
+Theorem C17_no_outflow_from_bystanders :
+  forall v H minrew s o s' x, step v H minrew s o = Ok s' -> payer o <> Some x ->
+  forall d, bal_get d (a_bal (getA s x)) <= bal_get d (a_bal (getA s' x)).
+Proof. exact step_nondec. Qed.
+Print Assumptions C17_no_outflow_from_bystanders.
 
-(* over EVERY history of the model the checker never reports a plain bank send *)
-Theorem C17_chk_bank_sound_history :
-  forall H minrew bals ops c, In c (model_clauses H minrew bals ops) ->
-  c <> "blocked:bank_send"%string /\ c <> "whitelist:bank_send"%string /\ c <> "limits:bank_send"%string.
-Proof. exact chk_bank_sound_history. Qed.
-Print Assumptions C17_chk_bank_sound_history.
+Theorem C17_chk_outflow_sound :
+  forall v H minrew n s o s', step v H minrew s o = Ok s' -> out_clauses n s s' o = [].
+Proof. intros v H minrew n s o s' E. exact (out_sound v H minrew n s o s' E). Qed.
+Print Assumptions C17_chk_outflow_sound.
 
-(* ---------------------------------------------------------------- settings change only with the key *)
-(* full strength: REFUTED on the unchanged tree (three independent witnesses: a message type without
-   an arm; a signer without record naming the victim as target; a guarded signer naming its own
-   NextController) *)
-Theorem C17_settings_change_requires_key_refuted : ~ settings_change_requires_key_stmt.
+(* a pay-out at an approval needs the counter (including this vote) to reach the configured share of the
+   custodian map, and the Confirmed flag when a password is in use *)
+Theorem C17_release_needs_counter :
+  forall v H minrew s f t h s' st c p tx,
+  step v H minrew s (OApprove f t h) = Ok s' ->
+  mark_get f t (mark_key v h) (marks s) = None ->
+  a_set (getA s t) = Some st -> s_en st = true -> a_cust (getA s t) = Some c ->
+  a_pool (getA s t) = Some p -> pool_get (to_lower h) p = Some tx ->
+  (match a_pool (getA s' t) with Some p' => pool_get (to_lower h) p' | None => None end) = None ->
+  s_mode st <= Z.quot ((t_votes tx + 1) * 100) (map_len c) /\ (s_pwd st = true -> t_conf tx = true).
+Proof. exact approve_release_needs_counter. Qed.
+Print Assumptions C17_release_needs_counter.
+
+(* a custody send pays out directly only without custodians and without password *)
+Theorem C17_direct_payout_only_unguarded :
+  forall v H minrew s sg to amt pw rew h s' st,
+  step v H minrew s (OSend sg to amt pw rew h) = Ok s' -> a_set (getA s sg) = Some st ->
+  a_pool (getA s' sg) = a_pool (getA s sg) -> a_pool (getA s sg) = None ->
+  s_pwd st = false /\ (s_en st = true -> a_cust (getA s sg) = Some []).
+Proof. exact send_direct_only_unguarded. Qed.
+Print Assumptions C17_direct_payout_only_unguarded.
+
+(* ================================================================ settings change only with the key: a design-level hole on every variant *)
+Theorem C17_settings_change_requires_key_refuted : forall v, ~ settings_change_requires_key_stmt v.
 Proof. exact settings_change_requires_key_refuted. Qed.
 Print Assumptions C17_settings_change_requires_key_refuted.
 
-Theorem C17_settings_change_by_stranger_via_target : exists ops o x st,
-  let s := w_run ops in
+Theorem C17_settings_change_by_stranger_via_target : forall v, exists ops o x st,
+  let s := w_run v ops in
   signer o <> x /\ a_set (getA s (signer o)) = None /\
-  a_set (getA s x) = Some st /\ s_en st = true /\ config_eqb (getA s x) (getA (exec Hid 200 s o) x) = false
+  a_set (getA s x) = Some st /\ s_en st = true /\ config_eqb (getA s x) (getA (exec v Hid 200 s o) x) = false
   /\ forall k, op_kp o = Some k -> Hid (k_old k) <> s_key st.
 Proof. exact key_refuted_target_norecord. Qed.
 Print Assumptions C17_settings_change_by_stranger_via_target.
 
-Theorem C17_settings_change_via_own_next_controller : exists ops o x st,
-  let s := w_run ops in
+Theorem C17_settings_change_via_own_next_controller : forall v, exists ops o x st,
+  let s := w_run v ops in
   signer o <> x /\ a_set (getA s x) = Some st /\ s_en st = true
-  /\ config_eqb (getA s x) (getA (exec Hid 200 s o) x) = false
+  /\ config_eqb (getA s x) (getA (exec v Hid 200 s o) x) = false
   /\ forall k, op_kp o = Some k -> Hid (k_old k) <> s_key st.
 Proof. exact key_refuted_target_next. Qed.
 Print Assumptions C17_settings_change_via_own_next_controller.
@@ -101,98 +140,93 @@ Print Assumptions C17_settings_change_via_own_next_controller.
 (* what does hold: the seven message types with an arm, sent by a guarded signer, are accepted only
    with the preimage of the SIGNER's key, and name no target or the signer's NextController *)
 Theorem C17_settings_change_requires_key_partial :
-  forall H minrew s o k st s',
+  forall v H minrew s o k st s',
   keyed_op o = Some k -> a_set (getA s (signer o)) = Some st -> s_en st = true ->
-  step H minrew s o = Ok s' ->
+  step v H minrew s o = Ok s' ->
   H (k_old k) = s_key st /\ (k_tgt k = -1 \/ k_tgt k = s_next st).
 Proof. exact keyed_requires_own_key. Qed.
 Print Assumptions C17_settings_change_requires_key_partial.
 
 Theorem C17_limits_messages_rejected_for_guarded_signer :
-  forall H minrew s o st,
+  forall v H minrew s o st,
   (match o with OAddLim _ _ _ _ _ | ORemLim _ _ _ | ODropLim _ _ => True | _ => False end) ->
-  a_set (getA s (signer o)) = Some st -> s_en st = true -> is_ok (step H minrew s o) = false.
+  a_set (getA s (signer o)) = Some st -> s_en st = true -> is_ok (step v H minrew s o) = false.
 Proof. exact limits_ops_rejected_when_enabled. Qed.
 Print Assumptions C17_limits_messages_rejected_for_guarded_signer.
 
-(* ---------------------------------------------------------------- only custodians count *)
-Theorem C17_only_custodians_count_refuted : ~ only_custodians_count_stmt.
+(* ================================================================ only custodians count: exactly the variants with C17-custodian-only-votes *)
+Theorem C17_only_custodians_count : forall v, v_cust_only v = true -> only_custodians_count_stmt v.
+Proof. exact only_custodians_count_holds. Qed.
+Print Assumptions C17_only_custodians_count.
+Theorem C17_only_custodians_count_refuted : forall v, v_cust_only v = false -> ~ only_custodians_count_stmt v.
 Proof. exact only_custodians_count_refuted. Qed.
 Print Assumptions C17_only_custodians_count_refuted.
 
-(* ---------------------------------------------------------------- password confirmed when required *)
-Theorem C17_password_confirmed_when_required_refuted : ~ password_confirmed_when_required_stmt.
+(* ================================================================ password confirmed when required: exactly the variants with C17-password-compared *)
+Theorem C17_password_confirmed_when_required : forall v, v_pwd v = true -> password_confirmed_when_required_stmt v.
+Proof. exact password_confirmed_when_required_holds. Qed.
+Print Assumptions C17_password_confirmed_when_required.
+Theorem C17_password_confirmed_when_required_refuted : forall v, v_pwd v = false -> ~ password_confirmed_when_required_stmt v.
 Proof. exact password_confirmed_when_required_refuted. Qed.
 Print Assumptions C17_password_confirmed_when_required_refuted.
 
-(* ---------------------------------------------------------------- release only after the threshold *)
-Theorem C17_release_only_after_threshold_refuted : ~ release_only_after_threshold_stmt.
+(* ================================================================ release only after the threshold; one vote per custodian and transfer *)
+Theorem C17_release_only_after_threshold :
+  forall v, v_cust_only v = true -> v_lower v = true -> v_pwd v = true -> release_only_after_threshold_stmt v.
+Proof. exact release_only_after_threshold_holds. Qed.
+Print Assumptions C17_release_only_after_threshold.
+Theorem C17_release_only_after_threshold_refuted :
+  forall v, v_cust_only v = false \/ v_lower v = false -> ~ release_only_after_threshold_stmt v.
 Proof. exact release_only_after_threshold_refuted. Qed.
 Print Assumptions C17_release_only_after_threshold_refuted.
 
-(* one custodian counts twice for one transfer by spelling its hash differently *)
-Theorem C17_vote_counts_once_per_transfer_refuted : ~ vote_counts_once_per_transfer_stmt.
+Theorem C17_vote_counts_once_per_transfer :
+  forall v, v_cust_only v = true -> v_lower v = true -> v_pwd v = true -> vote_counts_once_per_transfer_stmt v.
+Proof. exact vote_counts_once_per_transfer_holds. Qed.
+Print Assumptions C17_vote_counts_once_per_transfer.
+Theorem C17_vote_counts_once_per_transfer_refuted : forall v, v_lower v = false -> ~ vote_counts_once_per_transfer_stmt v.
 Proof. exact vote_counts_once_per_transfer_refuted. Qed.
 Print Assumptions C17_vote_counts_once_per_transfer_refuted.
 
-(* what does hold, over every history from the initial state: the vote counter of a pooled transfer never
-   exceeds the number of approval marks recorded for it, and a pay-out at an approval needs the
-   counter (including this vote) to reach the configured share of the custodian map *)
-Theorem C17_votes_bounded_by_marks :
-  forall H minrew bals ops t p h tx,
-  let s := run H minrew (init_state bals) ops in
-  a_pool (getA s t) = Some p -> pool_get h p = Some tx -> t_votes tx <= count_marks t h (marks s).
-Proof. exact votes_bounded_by_marks. Qed.
-Print Assumptions C17_votes_bounded_by_marks.
+(* ================================================================ soundness of the WHOLE spec checker on the repaired variants:
+   over every history from the initial state, whatever the checker reports is one of the design-level
+   clauses (key:..., multi-send / custody send not covered by block, whitelist and limits) *)
+Theorem C17_chk_sound_repaired :
+  forall v, v_cust_only v = true -> v_lower v = true -> v_pwd v = true ->
+  forall H minrew bals ops c, In c (model_clauses v H minrew bals ops) -> residual c = true.
+Proof. exact repaired_all_clauses. Qed.
+Print Assumptions C17_chk_sound_repaired.
 
-Theorem C17_release_needs_counter_partial :
-  forall H minrew s f t h s' st c p tx,
-  step H minrew s (OApprove f t h) = Ok s' ->
-  mark_get f t h (marks s) = None ->
-  a_set (getA s t) = Some st -> s_en st = true -> a_cust (getA s t) = Some c ->
-  a_pool (getA s t) = Some p -> pool_get (to_lower h) p = Some tx ->
-  (match a_pool (getA s' t) with Some p' => pool_get (to_lower h) p' | None => None end) = None ->
-  s_mode st <= Z.quot ((t_votes tx + 1) * 100) (map_len c) /\ (s_pwd st = true -> t_conf tx = true).
-Proof. exact approve_release_needs_counter. Qed.
-Print Assumptions C17_release_needs_counter_partial.
-
-(* a custody send pays out directly only without custodians and without password *)
-Theorem C17_direct_payout_only_unguarded :
-  forall H minrew s sg to amt pw rew h s' st,
-  step H minrew s (OSend sg to amt pw rew h) = Ok s' -> a_set (getA s sg) = Some st ->
-  a_pool (getA s' sg) = a_pool (getA s sg) -> a_pool (getA s sg) = None ->
-  s_pwd st = false /\ (s_en st = true -> a_cust (getA s sg) = Some []).
-Proof. exact send_direct_only_unguarded. Qed.
-Print Assumptions C17_direct_payout_only_unguarded.
-
-(* the whole property (the checker accepts every history of the model): refuted *)
-Theorem C17_full_refuted : ~ C17_full_stmt.
+(* the checker accepts every history: refuted on every variant (the design-level holes) *)
+Theorem C17_full_refuted : forall v, ~ C17_full_stmt v.
 Proof. exact C17_full_refuted. Qed.
 Print Assumptions C17_full_refuted.
 
-(* ---------------------------------------------------------------- non-vacuity *)
-(* a reachable guarded state with custodians and a whitelist satisfying the hypotheses of the first theorems *)
-Example C17_nonvacuous_guarded_state :
-  let s := w_run (w_setup 100 false) in
+(* ================================================================ non-vacuity *)
+Example C17_nonvacuous_guarded_state : forall v,
+  let s := w_run v (w_setup 100 false) in
   exists st c, a_set (getA s 0) = Some st /\ s_en st = true /\ a_cust (getA s 0) = Some c /\ c <> [].
 Proof. exact nonvacuous_guarded. Qed.
 
-(* an approval that takes effect (hypothesis of the vote theorem) *)
-Example C17_nonvacuous_effective_approval :
-  let s := w_run (app (w_setup 100 false) [w_send]) in exec Hid 200 s (OApprove 2 0 "ab12cd34") <> s.
+Example C17_nonvacuous_effective_approval : forall v,
+  let s := w_run v (app (w_setup 100 false) [w_send]) in exec v Hid 200 s (OApprove 2 0 "ab12cd34") <> s.
 Proof. exact nonvacuous_approval. Qed.
 
-(* the honest history (right password, both custodians, each once) is paid out and accepted by the checker *)
-Example C17_nonvacuous_honest_run :
-  model_clauses Hid 200 w_bals (app (w_setup 100 true) [w_send; OConfirm 0 0 "ab12cd34" "p1" "P1"; OApprove 2 0 "ab12cd34";
-                                                         OApprove 2 0 "ab12cd34"; OApprove 3 0 "ab12cd34"; OBank 0 5 10])%string = []
-  /\ a_bal (getA (w_run (app (w_setup 100 true) [w_send; OConfirm 0 0 "ab12cd34" "p1" "P1"; OApprove 2 0 "ab12cd34";
-                                                  OApprove 2 0 "ab12cd34"; OApprove 3 0 "ab12cd34"; OBank 0 5 10])%string) 5) = 1000.
+(* the honest history (right password, both custodians, each once, a plain bank send afterwards) is paid
+   out and accepted by the checker on every variant *)
+Example C17_nonvacuous_honest_run : forall v, model_clauses v Hid 200 w_bals w_honest = [] /\ bal0 (w_run v w_honest) 5 = 1000.
 Proof. exact honest_run_clean. Qed.
 
 (* the second request replaces the pending one: a lost request, not an early pay-out *)
-Example C17_second_send_overwrites_pool :
-  let s := w_run (app (w_setup 100 false) [w_send; OApprove 2 0 "ab12cd34"; OSend 0 4 2000 "P2" [400] "cd34ab12"])%string in
+Example C17_second_send_overwrites_pool : forall v,
+  let s := w_run v (app (w_setup 100 false) [w_send; OApprove 2 0 "ab12cd34"; OSend 0 4 [(0, 2000)] "P2" [(0, 400)] "cd34ab12"])%string in
   option_map (map fst) (a_pool (getA s 0)) = Some ["cd34ab12"%string]
-  /\ is_panic (step Hid 200 s (OApprove 3 0 "ab12cd34")) = true.
+  /\ is_panic (step v Hid 200 s (OApprove 3 0 "ab12cd34")) = true.
 Proof. exact second_send_overwrites_pool. Qed.
+
+(* the repaired limit path enforces a window; the unrepaired one panics *)
+Example C17_limits_window :
+  bal0 (w_run v_fixed w_limits) 5 = 2000
+  /\ is_ok (step v_fixed Hid 200 (w_run v_fixed (firstn 4 w_limits)) (OBank 0 5 [(0, 1)] 1700000020)) = false
+  /\ is_panic (step v_tree0 Hid 200 (w_run v_tree0 (firstn 2 w_limits)) (OBank 0 5 [(0, 600)] 1700000000)) = true.
+Proof. exact limits_window_example. Qed.
